@@ -54,10 +54,10 @@ class LambdaTokenTranslator(AbstractTranslator):
 
         if getattr(getattr(token.expression, 'left_operand', None), 'value', None) \
                 and isinstance(token.expression.left_operand.value[0], PatternToken):
-            # the pattern describes the whole cell, whatever its case
+            # the pattern describes the whole text of a cell, whatever its case; a blank cell or a number is no text
             return context.set_sub_cell(
                 token.in_cell,
-                f'lambda x: re.fullmatch(self._regexp({condition_value}), str(x), re.IGNORECASE | re.DOTALL)'
+                f'lambda x: isinstance(x, str) and re.fullmatch(self._regexp({condition_value}), x, re.IGNORECASE | re.DOTALL)'
             )
 
         # an ordering criterion (">5") never accepts a text cell; comparing a text with a number would raise
